@@ -307,7 +307,7 @@ fn proof_case(rec: &mut Rec, _ctx: &Ctx, idx: u64, rng: &mut ChaCha20Rng) {
 }
 
 pub fn run(ctx: &Ctx) -> Rec {
-  let mut rec = par_run(ctx, "pk", ctx.n(96, 2056), |rec, i, rng| pk_case(rec, ctx, i, rng));
-  rec.merge(par_run(ctx, "proof", ctx.n(200, 20_000), |rec, i, rng| proof_case(rec, ctx, i, rng)));
+  let mut rec = par_run(ctx, "pk", ctx.n(96, 20560), |rec, i, rng| pk_case(rec, ctx, i, rng));
+  rec.merge(par_run(ctx, "proof", ctx.n(200, 400_000), |rec, i, rng| proof_case(rec, ctx, i, rng)));
   rec
 }
